@@ -16,7 +16,8 @@ Driver for C16.  IDs are `mid.rid`; lists are `,`-separated, `-` = empty.
   uniq <docs>
   full <hot> <cold> <offset> <size> <rev> <src 0|1> <hint> <fetch 0|1> <order> <behav>
   api <hot> <cold> <offset> <size> <rev> <hint> <order> <behav>     the same through proxyapi Search
-  export <hot> <cold> <offset> <size> <hint> <order> <behav>         proxyapi Export (newest first)
+  export <maxDocs> <hot> <cold> <offset> <size> <hint> <order> <behav>   proxyapi Export (newest first)
+  wire <hot> <cold> <offset> <size> <rev> <hint> <order> <behav>     Search over the real gRPC server (recover interceptor)
   fetchapi <ids> <srcs> <order> <behav>                              proxyapi Fetch (Ingestor.Documents)
 -/
 open SV SV.Proto SV.ProxySearch SV.DocsMerge SV.ProxyRead SV.ProxyApi
@@ -210,15 +211,26 @@ def step (line : String) : String :=
       | .panic => "panic"
       | .resp ids docs p t => s!"ok partial={fmtBool p} total={toInt64 t} ids={fmtIDs ids} docs={fmtNats docs}"
     | _, _, _, _, _, _, _, _ => "bad-op"
-  | ["export", hot, cold, off, sz, hint, order, behav] =>
-    match parseArrival hot, parseArrival cold, off.toNat?, sz.toNat?, hint.toNat?, natList? order, parseBehav behav with
-    | some h, some c, some off, some sz, some hint, some order, some b =>
-      match apiExport SV.Extracted.C16.exportReportsPartial (searchAndFetch h c off sz false hint true order (behavFn b)) with
+  | ["export", maxDocs, hot, cold, off, sz, hint, order, behav] =>
+    match maxDocs.toNat?, parseArrival hot, parseArrival cold, off.toNat?, sz.toNat?, hint.toNat?, natList? order, parseBehav behav with
+    | some md, some h, some c, some off, some sz, some hint, some order, some b =>
+      match apiExportReq md sz SV.Extracted.C16.exportReportsPartial (searchAndFetch h c off sz false hint true order (behavFn b)) with
       | .status ia => if ia then "err invalid-argument" else "err internal"
       | .plainErr => "err unknown"
       | .panic => "panic"
       | .stream docs e => s!"ok end={if e then "error" else "ok"} docs=" ++ fmtList (fun (d : ProxySearch.ID × Nat) => s!"{fmtID d.1}={d.2}") docs
-    | _, _, _, _, _, _, _ => "bad-op"
+    | _, _, _, _, _, _, _, _ => "bad-op"
+  | ["wire", hot, cold, off, sz, rev, hint, order, behav] =>
+    -- the Search handler behind the server's recover interceptor: a panic reaches the client as codes.Internal
+    match parseArrival hot, parseArrival cold, off.toNat?, sz.toNat?, bool? rev, hint.toNat?,
+      natList? order, parseBehav behav with
+    | some h, some c, some off, some sz, some rev, some hint, some order, some b =>
+      match api (searchAndFetch h c off sz rev hint true order (behavFn b)) with
+      | .status ia => if ia then "err invalid-argument" else "err internal"
+      | .refused => "ok refused tmf"
+      | .panic => "err internal"
+      | .resp ids docs p t => s!"ok partial={fmtBool p} total={toInt64 t} ids={fmtIDs ids} docs={fmtNats docs}"
+    | _, _, _, _, _, _, _, _ => "bad-op"
   | ["fetchapi", ids, srcs, order, behav] =>
     match parseIDs ids, natList? srcs, natList? order, parseBehav behav with
     | some ids, some srcs, some order, some b =>
